@@ -194,8 +194,10 @@ class NodeExistence:
                     return -1  # If there is a node with no upper bound, we cannot reliably check the max nr of conns
             return n_max_outgoing
 
-        for nodes, n_conn_max in [(tgt, _get_max_outgoing_conn(src)),
-                                  (src, _get_max_outgoing_conn(tgt))]:
+        # Note: the bound of the opposite nodes is determined after the first conversion, as nodes that lost their upper
+        # bound cannot be used anymore to remove the upper bound of the other side
+        for nodes, opposite_nodes in [(tgt, src), (src, tgt)]:
+            n_conn_max = _get_max_outgoing_conn(opposite_nodes)
             if n_conn_max < 1:
                 continue
             n_conn_max = max(2, n_conn_max)
